@@ -2,7 +2,7 @@
    All algorithms produce their suggestions through DefaultModelInputConverter.to_parameter_values (numpy designers and
    GP designers via TrialToArrayConverter / TrialToModelInputConverter, Eagle via ProblemAndTrialsScaler); the theorems
    are about that common last step.  Gen/Scalers.v is regenerated from converters/core.py on every run. *)
-From VZ Require Import Base.Prelude Model.Space Model.Conv Proofs.SpaceP Proofs.ConvP Gen.Scalers.
+From VZ Require Import Base.Prelude Model.Space Model.Conv Proofs.SpaceP Proofs.ConvP Gen.Scalers Model.Default Proofs.DefaultP.
 Close Scope R_scope.
 Open Scope Q_scope.
 
@@ -41,7 +41,40 @@ Theorem C03_log_scale_refused_for_nonpositive_bounds : log_refuses_nonpositive =
 Proof. split; reflexivity. Qed.
 Print Assumptions C03_log_scale_refused_for_nonpositive_bounds.
 
+(* the default / centre seed (suggest_default.py, formulas regenerated from the source into Gen/SuggestDefault.v): for
+   every well-formed parameter of the four types with no declared default it exists and lies in the domain ... *)
+Theorem C03_default_seed_in_domain : forall p, wf_def p -> exists v, default_checked p None = Ok v /\ in_domain p v.
+Proof. exact default_exists_in_domain. Qed.
+Print Assumptions C03_default_seed_in_domain.
+(* ... a declared default is handed out exactly when it lies in the domain (otherwise the seeding is refused), and
+   whatever is handed out lies in the domain *)
+Theorem C03_declared_default : forall p d v, default_checked p (Some d) = Ok v <-> v = d /\ in_domain p d.
+Proof. exact declared_default. Qed.
+Print Assumptions C03_declared_default.
+Theorem C03_default_never_outside : forall p d v, default_checked p d = Ok v -> in_domain p v.
+Proof. exact default_checked_in_domain. Qed.
+Print Assumptions C03_default_never_outside.
+(* the formulas as the source has them: the index is inside the list, the midpoint inside the bounds *)
+Theorem C03_default_formulas : (forall n, (0 < n)%nat -> (default_index n < n)%nat) /\
+  (forall lo hi, (lo <= hi)%Q -> (lo <= double_mid lo hi)%Q /\ (double_mid lo hi <= hi)%Q) /\
+  (forall lo hi, (lo <= hi)%Q -> (lo <= double_single lo hi)%Q /\ (double_single lo hi <= hi)%Q).
+Proof. split; [exact default_index_in|split; [exact double_mid_in|exact double_single_in]]. Qed.
+Print Assumptions C03_default_formulas.
+(* seed_with_default: the answer for an empty study starts with the default and has the requested length; a non-empty
+   study is passed to the policy unchanged *)
+Theorem C03_seed_wrapper : forall A (d : A) inner,
+  (forall count, (0 < count)%nat -> (forall k, length (inner k) = k) ->
+     hd_error (seeded d inner 0 count) = Some d /\ length (seeded d inner 0 count) = count) /\
+  (forall m count, (0 < m)%nat -> seeded d inner m count = inner count).
+Proof. intros A d inner. split; [intros; apply seeded_empty; auto|intros; apply seeded_nonempty; auto]. Qed.
+Print Assumptions C03_seed_wrapper.
+
 Example C03_nonvacuous :
   wf_pc (mkPC [112%N] TInteger (-3) 12 [] []) /\
   to_pvalue (mkCv (mkPC [112%N] TInteger (-3) 12 [] []) true true true) XPInf = DSome (RInt (-3)).
 Proof. split; [split; [discriminate|intros _; split; reflexivity]|reflexivity]. Qed.
+Example C03_default_nonvacuous :
+  wf_def (mkPC [120%N] TDiscrete 0 0 [1 # 2; 3 # 2; 5 # 2] []) /\
+  default_checked (mkPC [120%N] TDiscrete 0 0 [1 # 2; 3 # 2; 5 # 2] []) None = Ok (RFloat (XF (3 # 2))) /\
+  default_checked (mkPC [120%N] TDouble 0 1 [] []) (Some (RFloat (XF 5))) = Err EValue.
+Proof. repeat split; try discriminate; try reflexivity. Qed.
